@@ -17,7 +17,7 @@ META = {
  "C07_15": ("QNoiseScheduler.update_qnoise_factor: num_iters incremented only inside the update_freq branch", "update_freq >= 2"),
  "C07_16": ("BaseQuantizer.update_qnoise_factor replaces the tf.Variable by a python float", "use_variables=True, update after build, traced call"),
  "C08_15": ("stochastic_round_po2 rounds the exponent stochastically", "training phase, non-power-of-two inputs"),
- "C08_16": ("quantized_linear._scale_clip_and_round: one-bit case through a sign function (stochastic rounding ignored)", "one-bit quantized_linear, stochastic rounding, training phase - NOT detected: the C08 lattice starts at 2 bits"),
+ "C08_16": ("quantized_linear._scale_clip_and_round: one-bit case through a sign function (stochastic rounding ignored)", "one-bit quantized_linear, stochastic rounding, training phase (first missed; detected since the sign-format family was added)"),
  "C09_15": ("quantized_relu.from_config forces is_quantized_clip=False when relu_upper_bound is present", "relu_upper_bound set with is_quantized_clip=True"),
  "C09_16": ("binary.get_config: max_po2_exponent exported from min_po2_exponent", "binary(alpha='auto_po2') with different bounds"),
  "C10_15": ("safe_eval.ListofNums parses with np.fromstring (ints become floats)", "integer list literal (scale_axis=[0 1])"),
